@@ -5,6 +5,7 @@ use crate::model::{b, hexs, B};
 use crate::mon::{guarded, par, rng_for, Rec};
 use crate::sh::*;
 use crate::zoo::{field_core, field_random, field_zoo, rand_below, rand_range, Tagged};
+use rand_core::RngCore;
 use serde_json::json;
 
 const P: &str = "C10";
@@ -222,9 +223,24 @@ fn run_field<F: FieldLike>(ctx: &Ctx, rec: &mut Rec) {
                             // p - 1 (Fermat) and p - 2
                             limbs = crate::model::limbs64(&(&f.p - b(1 + (rep % 2) as u64)), (f.bits + 63) / 64);
                         }
+                        3 => {
+                            // multiples of the group order and their neighbours: k(p-1) + delta, k = 0..=16 (an
+                            // exponent "reduced mod p-1" first is only right for non-zero bases)
+                            let k = (rep / 5) % 17;
+                            let e = (&f.p - b(1)) * b(k as u64);
+                            let e = match (rep / 85) % 3 { 0 => e, 1 => e + b(1), _ => if e > b(0) { e - b(1) } else { e } };
+                            limbs = e.to_u64_digits();
+                        }
+                        4 => {
+                            // very long exponents: 6..=17 limbs, weight in the high limbs only or everywhere
+                            let nlong = 6 + (rep / 5) % 12;
+                            limbs = (0..nlong).map(|i| if (rep / 60) % 2 == 0 && i + 2 < nlong { 0 } else { rng.next_u64() }).collect();
+                        }
                         _ => {}
                     }
                 }
+                // bases for the structured exponents: 0, 1, -1 and 2 as well as the zoo / random ones
+                let a = if phase == 1 && rep % 5 == 3 { match (rep / 5) % 5 { 0 => b(0), 1 => b(1), 2 => &f.p - b(1), 3 => b(2), _ => a } } else { a };
                 let e = crate::model::from_limbs64(&limbs);
                 let want = f.pow(&a, &e);
                 let la = F::from_b(&a);
